@@ -127,7 +127,14 @@ func c11R1(c *Ctx, rule string) {
 	}
 	// authenticated header range: nonce = header[:NonceSize()] (12), AAD
 	nonceHi := int64(0)
-	if sl, ok := open.Call.Args[1].(*ssa.Slice); ok && sl.X == ssa.Value(dh) && sl.Low == nil && sl.High != nil {
+	fromStart := func(x ssa.Value) bool {
+		if x == ssa.Value(dh) {
+			return true
+		}
+		off, okO := constSliceOffset(x, dh.X) // any spelling of "the message from its first byte"
+		return okO && off == 0
+	}
+	if sl, ok := open.Call.Args[1].(*ssa.Slice); ok && fromStart(sl.X) && sl.Low == nil && sl.High != nil {
 		if isNonceSizeOf(sl.High) {
 			nonceHi = 12
 		} else if k, isK := intConst(sl.High); isK {
@@ -371,15 +378,30 @@ func c11R3(c *Ctx, rule string) {
 	b0 := dec.Blocks[0]
 	ok := false
 	if iff, isIf := b0.Instrs[len(b0.Instrs)-1].(*ssa.If); isIf {
-		at := NormCond(iff.Cond, true)
-		if at.Kind == "cmp" && at.Op == token.LSS {
-			if lc, isC := at.X.(*ssa.Call); isC && calleeName(&lc.Call) == "builtin.len" && lc.Call.Args[0] == ssa.Value(dec.Params[2]) {
-				if k, isK := intConst(at.Y); isK && k >= 22 {
-					tb := b0.Succs[0]
-					if r, isR := tb.Instrs[len(tb.Instrs)-1].(*ssa.Return); isR && errIsNilAt(resultValue(r, 0), r) == "nonnil" {
-						ok = true
-					}
-				}
+		// whichever way the test is written, one branch means len(in) < K (or <= K−1) with K >= 22, and that branch
+		// returns an error at once
+		for _, pol := range []bool{true, false} {
+			at := NormCond(iff.Cond, pol)
+			if at.Kind != "cmp" || (at.Op != token.LSS && at.Op != token.LEQ) {
+				continue
+			}
+			lc, isC := stripConv(at.X).(*ssa.Call)
+			if !isC || calleeName(&lc.Call) != "builtin.len" || lc.Call.Args[0] != ssa.Value(dec.Params[2]) {
+				continue
+			}
+			k, isK := intConst(at.Y)
+			if at.Op == token.LEQ {
+				k++
+			}
+			if !isK || k < 22 {
+				continue
+			}
+			tb := b0.Succs[0]
+			if !pol {
+				tb = b0.Succs[1]
+			}
+			if r, isR := tb.Instrs[len(tb.Instrs)-1].(*ssa.Return); isR && errIsNilAt(resultValue(r, 0), r) == "nonnil" {
+				ok = true
 			}
 		}
 	}
@@ -459,16 +481,35 @@ func c11R4(c *Ctx, rule string) {
 	okLoop := rdCall != nil
 	if okLoop {
 		errV := extractOf(rdCall, 1)
-		for _, r := range returnsOf(dp) {
-			under := false
-			for _, at := range AtomsAt(r) {
-				if at.Kind == "cmp" && at.Op == token.NEQ && (at.X == errV || at.Y == errV) {
-					under = true
+		// every way from the read to a return crosses an edge on which the read's error (or a variable that only ever
+		// holds nil or that error) is non-nil
+		var onlyReadErr func(v ssa.Value, d int) bool
+		onlyReadErr = func(v ssa.Value, d int) bool {
+			if v == errV {
+				return true
+			}
+			ph, isPhi := v.(*ssa.Phi)
+			if !isPhi || d > 3 {
+				return false
+			}
+			for _, e := range ph.Edges {
+				if isNilConst(e) || e == ssa.Value(ph) {
+					continue
+				}
+				if !onlyReadErr(e, d+1) {
+					return false
 				}
 			}
-			if !under {
-				okLoop = false
+			return true
+		}
+		escape := edgeSearch(dp, rdCall, func(at Atom) bool {
+			if at.Kind != "cmp" || at.Op != token.NEQ {
+				return false
 			}
+			return (isNilConst(at.Y) && onlyReadErr(at.X, 0)) || (isNilConst(at.X) && onlyReadErr(at.Y, 0))
+		}, nil, func(i ssa.Instruction) bool { _, isRet := i.(*ssa.Return); return isRet })
+		if escape != nil {
+			okLoop = false
 		}
 		// and the decode error does not close the connection: no Close/passiveClose guarded by recvDataFromRemote's error
 		allInstrs(dp, func(i ssa.Instruction) {
